@@ -122,7 +122,9 @@ class PromiseType final : public PromiseTypeBase<V, E, Lazy, Shared> {
   }
 
   YACLIB_INLINE void Impl(InlineCore& caller) noexcept {
-    this->_executor = std::move(DownCast<BaseCore>(caller)._executor);
+    // copy, not move: IntrusivePtr move-assignment swaps, which would hand our previous (inline) executor to the
+    // caller and make whatever inherits from the caller afterwards lose the executor of the chain
+    this->_executor = DownCast<BaseCore>(caller)._executor;
     YACLIB_ASSERT(this->_executor != nullptr);
   }
   [[nodiscard]] InlineCore* Here(InlineCore& caller) noexcept final {
